@@ -106,6 +106,23 @@ def gen_vocab_corpus(rng, ntypes, prefix):
     return lines
 
 
+def gen_catalogue_corpus(rng, base_sentences, types, nitems, maxlen):
+    """running text with `catalogues`: thousands of distinct identifiers in a row, each occurring exactly once (part numbers,
+    hashes, a word list appended to the corpus).  All n-grams over them are singletons and adjacent in every sort order, so with
+    --prune whole chain blocks of the later stages consist of prunable n-grams only."""
+    lines = gen_corpus(rng, base_sentences, types, maxlen, "zipf")
+    done = 0
+    while done < nitems:
+        burst = min(nitems - done, rng.choice([nitems, nitems, max(1, nitems // 2), rng.range(1, nitems)]))
+        per_line = rng.choice([1, 5, 10, 10])
+        for i in range(done, done + burst, per_line):
+            lines.append(" ".join("id%06d" % j for j in range(i, min(done + burst, i + per_line))))
+        done += burst
+        if done < nitems or rng.chance(1, 3):
+            lines += gen_corpus(rng, rng.range(1, 200), types, maxlen, "zipf")
+    return lines
+
+
 def prune_options(rng, order):
     """--prune thresholds (non-decreasing, 0 for unigrams) that prune at least the highest order"""
     if order < 2:
@@ -298,9 +315,13 @@ def run_lmplz(ctx, tool, corpus, order, cfg, tag, extra=()):
     wd = os.path.join(ctx.scratch, "run-" + tag)
     shutil.rmtree(wd, ignore_errors=True)
     os.makedirs(os.path.join(wd, cfg.get("T", "t")), exist_ok=True)
-    cmd = ["timeout", "120", tool, "-o", str(order), "--text", corpus, "--arpa", os.path.join(wd, "out.arpa"),
-           "--intermediate", os.path.join(wd, "int"), "--discount_fallback",
-           "-S", cfg["S"], "--vocab_estimate", str(cfg["vocab_estimate"]), "-T", os.path.join(wd, cfg.get("T", "t")) + "/"]
+    # "@arpa-only" (a pseudo option): no --intermediate.  --intermediate forces --renumber (word ids ordered by hash), the
+    # default pipeline keeps first-occurrence ids: the two order every stream differently, so both are exercised.
+    arpa_only = "@arpa-only" in extra
+    extra = [x for x in extra if x != "@arpa-only"]
+    cmd = ["timeout", "120", tool, "-o", str(order), "--text", corpus, "--arpa", os.path.join(wd, "out.arpa")] + \
+          ([] if arpa_only else ["--intermediate", os.path.join(wd, "int")]) + \
+          ["--discount_fallback", "-S", cfg["S"], "--vocab_estimate", str(cfg["vocab_estimate"]), "-T", os.path.join(wd, cfg.get("T", "t")) + "/"]
     for k in ("sort_block", "minimum_block", "block_count"):
         if k in cfg:
             cmd += ["--" + k, str(cfg[k])]
@@ -317,11 +338,21 @@ def run_lmplz(ctx, tool, corpus, order, cfg, tag, extra=()):
         ctx.counts.setdefault("_truncs", []).append(truncs)
         dig = {}
         try:
+            header, body, sec = {}, {}, None
             with open(os.path.join(wd, "out.arpa"), errors="replace") as fh:
-                for _i in range(12):
-                    ln = fh.readline()
-                    if ln.startswith("ngram 1="):
-                        dig["_ngram1"] = int(ln.split("=")[1])
+                for ln in fh:
+                    if ln.startswith("ngram "):
+                        k, v = ln[6:].split("=")
+                        header[int(k)] = int(v)
+                    elif ln.startswith("\\") and ln.rstrip().endswith("-grams:"):
+                        sec = int(ln[1:ln.index("-")])
+                        body[sec] = 0
+                    elif sec is not None and ln.strip() and not ln.startswith("\\"):
+                        body[sec] += 1
+            if 1 in header:
+                dig["_ngram1"] = header[1]
+            dig["_header"] = header
+            dig["_body"] = body
         except (OSError, ValueError):
             pass
         for f in sorted(glob.glob(os.path.join(wd, "out.arpa")) + glob.glob(os.path.join(wd, "int*"))):
@@ -524,6 +555,13 @@ def run(ctx):
         order = rng.choice([3, 3, 4])
         lines = gen_repeat_corpus(rng, ctx.pick(1800, 3000), rng.choice([100, 200, 400]), rng.choice([12, 18]))
         corpora.append(("repeats%d" % i, lines, order, [] if i % 2 == 0 else prune_options(rng, order)))
+    for i in range(ctx.pick(2, 4)):
+        order = 3 if i == 0 else rng.choice([3, 4])
+        lines = gen_catalogue_corpus(rng, ctx.pick(1500, 4000), rng.choice([150, 400]), ctx.pick(3000, 10000), 12)
+        # the first one prunes the highest order only (the later stages then join through hash tables and tolerate what a
+        # block-wise compaction loses or resurrects: the damage reaches the output instead of stopping the run)
+        opts = ["--prune"] + ["0"] * (order - 1) + [str(rng.choice([1, 1, 2]))] if i == 0 else prune_options(rng, order)
+        corpora.append(("catalogue%d" % i, lines, order, opts))
     # vocabulary growth: only --vocab_estimate (and -S) vary; the reference never grows its table
     for i in range(ctx.pick(2, 4)):
         nt = rng.range(ctx.pick(30000, 50000), ctx.pick(45000, 90000))
@@ -549,6 +587,10 @@ def run(ctx):
         open(vocab_file, "w").write(" ".join("w%d" % k for k in range(0, 300, 2)) + "\n")
         corpora.append(("zipf-limit-vocab", gen_corpus(rng, 4000, 300, 12, "zipf"), 3, ["--limit_vocab_file", vocab_file]))
         corpora.append(("ids-limit-vocab", gen_ids_corpus(rng, 3000, 300, 800, 12), 3, ["--limit_vocab_file", vocab_file, "--prune", "0", "0", "1"]))
+    # output mode: every second corpus (and always the first catalogue / record-id corpus) without --intermediate
+    for k, entry in enumerate(corpora):
+        if k % 2 == 1 or entry[0] in ("catalogue0", "ids0", "ids-unpruned"):
+            corpora[k] = entry[:3] + (list(entry[3]) + ["@arpa-only"],) + tuple(entry[4:])
     failed_runs, failed_msgs, nothing_accepted = 0, {}, []
     for entry in corpora:
         name, lines, order, extra = entry[:4]
@@ -573,6 +615,12 @@ def run(ctx):
             if kind == "ok":
                 accepted += 1
                 n1 = res.pop("_ngram1", None)
+                hdr, bdy = res.pop("_header", None), res.pop("_body", None)
+                # the n-grams listed are the n-grams declared: a record that a block-wise compaction loses or resurrects shows here
+                if hdr is not None and hdr != bdy:
+                    spec_fail.append(("lmplz:header-body", {"corpus": "\n".join(lines)[:3000000], "order": order, "cmd": cmdline, "cfg": cfg, "extra": extra,
+                                                             "header": hdr, "body": bdy},
+                                      "the ARPA header declares %s n-grams per order, the sections list %s" % (hdr, bdy)))
                 # hash-table growth never changes the data: the unigram section lists every distinct type once (+ <unk> <s> </s>)
                 if n1 is not None and "--limit_vocab_file" not in extra and n1 != ntypes + 3:
                     spec_fail.append(("lmplz:unigram-count", {"corpus": "\n".join(lines)[:3000000], "order": order, "cmd": cmdline, "cfg": cfg, "extra": extra,
@@ -668,7 +716,11 @@ def replay(ctx, obj):
         if any(k in ("crash", "hang") for k, _ in results):
             print("oracle: lmplz crashed / hung under a configuration it accepted")
             return 1
-        oks = [{f: v for f, v in res.items() if f != "_ngram1"} for k, res in results if k == "ok"]
+        for k, res in results:
+            if k == "ok" and res.get("_header") != res.get("_body"):
+                print("oracle: ARPA header", res.get("_header"), "but the sections list", res.get("_body"))
+                return 1
+        oks = [{f: v for f, v in res.items() if not f.startswith("_")} for k, res in results if k == "ok"]
         if len(oks) == 2 and oks[0] != oks[1]:
             print("oracle: outputs differ:", sorted(k for k in set(oks[0]) | set(oks[1]) if oks[0].get(k) != oks[1].get(k)))
             return 1
